@@ -207,4 +207,17 @@ PROPS['C13'] = {
     'partial': 'Lean theorems (complete cell-by-cell description for every stream, and rejection with ValueError) for empty, dynamic_obstacles, teleport, keydoor, memory. crossing, rooms and memory_rooms are modelled and tied by draw-log correspondence on shapes 1x1..8x8 + shipped shapes, their well-formedness is decided by the oracle on the implementation, not yet by a theorem.',
 }
 
+PROPS['C01'] = {
+    'targets': ['GridVerse.Props.C01'],
+    'theorem_files': [('GridVerse/Props/C01.lean', 'C01_')] + AG('Objects', 'Actions'),
+    'audit_prefix': 'C01_',
+    'families': {
+        'quick': [(CORE, 'fam_trans_smallscope', 0, 16), (CORE, 'fam_trans_random', 3000, 16), (CORE, 'fam_reward', 1600, 16), (CORE, 'fam_term', 1600, 16), (ENVM, 'fam_env_shipped', 84, 16), (ENVM, 'fam_env_random', 640, 16)],
+        'thorough': DYN_THOROUGH + REW_THOROUGH[:2] + ENV_THOROUGH,
+    },
+    'oracle_cases': {'quick': 3200, 'thorough': 200000},
+    'trusted_base': ['finiteness of rewards: reward values are finite sums of the configured parameters and parameter x integer-distance products (the parameters themselves are assumed finite floats)'],
+    'assumptions': ['documented preconditions: Floor declared when pickndrop is used, box contents declared when actuate_box is, unique object for the distance rewards, a beacon for reach_exit_memory', 'observation space declares the state space types/colours and has the view shape with the agent inside the view (true for every shipped configuration)'],
+}
+
 NOT_CLAIMED = {}
